@@ -492,7 +492,7 @@ def geometry_cases(ctx, geoms, rnd):
     for j, shape in enumerate(bplan):
         for r in range(1 if quick else 2):
             out.append(mk_bits(PAR_APIS[(j + r + seed) % 2], shape, rnd, ncpu=(0, 3, 2)[(j + r) % 3], neg=(j + r) % 2 == 1,
-                               reps=(0, 2, 3) if quick else (0, 1, 2, 3, 5), pre=(r == 1)))
+                               reps=(0, 1, 2, 3) if quick else (0, 1, 2, 3, 5), pre=(r == 1)))
     return out
 
 
